@@ -270,6 +270,108 @@ def execute_random(case) -> Outcome:
                    metrics={"executions": 1})
 
 
+
+# ----------------------------------------------------------------------------- a live read that fails once (timeout) while leading data is still buffered
+
+def flaky_cases(tier):
+    cases = []
+    for kind in ("101", "connect", "connect-204"):
+        for d in (1, 2, 5, 300):
+            for m in (d, d + 1, d + 50, 65536):
+                for fault in ("ReadTimeout", "ReadError"):
+                    for sync in (True, False):
+                        cases.append({"kind": kind, "d": d, "m": m, "fault": fault, "sync": sync})
+    return cases
+
+
+def execute_flaky(case) -> Outcome:
+    """Head and d bytes of leading data arrive in one read; the caller writes (the peer's answer is now pending on the connection: it is readable),
+    then reads with max_bytes m. The FIRST read that goes to the network fails once (ReadTimeout: nothing is lost on the wire; ReadError: the
+    connection is gone). Whatever the caller gets - before the failure and, after a timeout, by reading again - must start with the d leading bytes."""
+    kind, d, m, sync = case["kind"], case["d"], case["m"], case["sync"]
+
+    def once(fault):
+        cfg = NetConfig(default_plan=_plan(kind, d), plans={"n1": {}})
+        world = World(peer_factory=cfg.peer_factory, faults=[dict(fault)] if fault else [])
+        pool = build_pool(world, {}, sync=sync)
+        sp = _spec(kind)
+        res = {"got": b"", "errors": [], "exc": None, "head_reads": None}
+
+        def reads_so_far():
+            return sum(1 for op in world.trace if op["kind"] == "read")
+
+        if sync:
+            try:
+                with pool.stream(sp["method"], sp["url"], headers=sp["headers"], extensions=dict(sp["ext"])) as resp:
+                    ns = resp.extensions["network_stream"]
+                    res["head_reads"] = reads_so_far()
+                    ns.write(b"ping")
+                    want = d + 5
+                    for _ in range(8):
+                        if len(res["got"]) >= want:
+                            break
+                        try:
+                            data = ns.read(m)
+                        except Exception as exc:
+                            res["errors"].append(type(exc).__name__)
+                            if type(exc).__name__ != "ReadTimeout":
+                                break
+                            continue
+                        if not data:
+                            break
+                        res["got"] += data
+            except BaseException as exc:
+                res["exc"] = exc_info(exc)
+            pool.close()
+        else:
+            async def go():
+                try:
+                    async with pool.stream(sp["method"], sp["url"], headers=sp["headers"], extensions=dict(sp["ext"])) as resp:
+                        ns = resp.extensions["network_stream"]
+                        res["head_reads"] = reads_so_far()
+                        await ns.write(b"ping")
+                        want = d + 5
+                        for _ in range(8):
+                            if len(res["got"]) >= want:
+                                break
+                            try:
+                                data = await ns.read(m)
+                            except Exception as exc:
+                                res["errors"].append(type(exc).__name__)
+                                if type(exc).__name__ != "ReadTimeout":
+                                    break
+                                continue
+                            if not data:
+                                break
+                            res["got"] += data
+                except BaseException as exc:
+                    res["exc"] = exc_info(exc)
+                await pool.aclose()
+
+            run_async(go())
+        return world, res
+
+    _, ref = once(None)
+    if ref["head_reads"] is None:
+        return Outcome([V(P, "exception", f"{kind} d={d}: reference run failed: {ref['exc']}", handover=kind, mode="flaky")], ["flaky"], False)
+    world, res = once({"kind": "read", "kind_index": ref["head_reads"], "fault": case["fault"]})
+    exp = leading(d) + b"Eping"
+    what = f"[{'sync' if sync else 'async'}] {kind} d={d} max_bytes={m}: the first network read after the hand-over fails with {case['fault']}"
+    vio = []
+    sig = dict(handover=kind, mode="flaky")
+    if res["exc"] is not None:
+        vio.append(V(P, "exception", f"{what}: {res['exc']['type']}: {res['exc']['msg']}", **sig))
+    elif case["fault"] == "ReadTimeout" and res["got"] != exp:
+        vio.append(V(P, "bytes-lost" if len(res["got"]) < len(exp) else "bytes-wrong", f"{what}; reading again the caller got {res['got']!r} in total, the server "
+                     f"sent {exp!r} after the head (errors seen: {res['errors']})", **sig))
+    elif case["fault"] == "ReadError" and not exp.startswith(res["got"]):
+        vio.append(V(P, "bytes-wrong", f"{what}: the caller got {res['got']!r}, not a prefix of {exp!r}", **sig))
+    elif case["fault"] == "ReadError" and len(res["got"]) < d and world.fired_faults:
+        vio.append(V(P, "bytes-lost", f"{what}: only {res['got']!r} of the {d} leading bytes that had ALREADY arrived with the head were delivered before the error "
+                     f"(errors seen: {res['errors']})", **sig))
+    return Outcome(vio, ["flaky-live-read", "fault-" + case["fault"], "fired" if world.fired_faults else "not-fired"], bool(world.fired_faults),
+                   info={"got": len(res["got"]), "errors": res["errors"]})
+
 # ----------------------------------------------------------------------------- tunnel proxy's own CONNECT
 
 def run_tunnel(cuts, sync, proxy_headers, status=200):
@@ -346,6 +448,7 @@ PROP = Prop(
     layers=[
         Layer("enumerated", cases=enum_cases, execute=execute_enum),
         Layer("random", strategy=random_cases, execute=execute_random, budget={"quick": 2000, "thorough": 80000}),
+        Layer("flaky-live-read", cases=flaky_cases, execute=execute_flaky),
         Layer("tunnel", strategy=tunnel_cases, execute=execute_tunnel, budget={"quick": 40, "thorough": 1200}),
         Layer("real-backends", strategy=__import__("vf.props.real", fromlist=["upgrade_scenarios"]).upgrade_scenarios,
               execute=__import__("vf.props.real", fromlist=["execute_upgrade"]).execute_upgrade, budget={"quick": 400, "thorough": 12000}),
